@@ -94,8 +94,22 @@ func checkC16(c *Ctx) {
 					if b, isB := rb.X.Type().Underlying().(*types.Basic); isB && b.Info()&types.IsUnsigned != 0 {
 						unsigned = true
 					}
-					ok = cv != nil && cv.Cmp(cv.SetInt64(1)) == 0 && k.Key(rb.Y) == "p1" && (coef == 1 || coef == -1) && onlyView && unsigned
-					detail = "result = (" + dividend.String() + ") mod numReplicas + 1 over an unsigned type"
+					// the remainder must be taken in the view's full width: a narrowing conversion of the view
+					// before the modulo breaks the rotation when the truncated value wraps
+					fullWidth := true
+					if vb, isB := rr.Params[0].Type().Underlying().(*types.Basic); isB {
+						if rbT, isB2 := rb.X.Type().Underlying().(*types.Basic); isB2 {
+							sz := types.SizesFor("gc", "amd64")
+							fullWidth = sz.Sizeof(rbT) >= sz.Sizeof(vb)
+						}
+					}
+					ok = cv != nil && cv.Cmp(cv.SetInt64(1)) == 0 && k.Key(rb.Y) == "p1" && (coef == 1 || coef == -1) && onlyView && unsigned && fullWidth
+					if !fullWidth {
+						detail = "the view is narrowed to " + rb.X.Type().String() + " before the modulo"
+					}
+					if fullWidth {
+						detail = "result = (" + dividend.String() + ") mod numReplicas + 1 over an unsigned type"
+					}
 				}
 			}
 		}
